@@ -8,7 +8,7 @@ from ..core import rule, Ctx
 from ..index import AnalysisError, dotted, src, walk_no_nested, names_in
 from ..consteval import Evaluator, Unfoldable, fold, TOP
 from ..cfg import CFG
-from ..util import pred_is
+from ..util import pred_is, reach_conds
 from .slots import BASEDEMUX, TAGS, P, DEMUXMODS
 
 MD = P + 'modularDemultiplexer/'
@@ -364,6 +364,29 @@ def r6(ctx):
     ctx.emit('C04-R6', ok and lim is not None and lim <= 255, BASEDEMUX, tests[0].ast if tests else f, f'asFastq raises iff len(header) > {lim}: the test dominates every return of the record', key='length-guard')
     skip = [c for c in walk_no_nested(f) if isinstance(c, (ast.ListComp, ast.GeneratorExp)) and 'doNotWrite' in src(c)]
     ctx.emit('C04-R6', bool(skip), BASEDEMUX, skip[0] if skip else f, 'only tags marked doNotWrite are left out of the header', key='doNotWrite', nontrivial=False)
+
+
+@rule('C04', 'C04-R7', 'what is encoded is what was read: the raw barcode tag carries the bases cut from the read and the corrected barcode tag the whitelist '
+                       'entry (shared with C02-R8), and on decoding the sample name is LY_bi whenever a cell index is present')
+def r7(ctx):
+    from . import C02
+    C02.provenance(ctx, 'C04-R7')
+    f = ctx.fn(BASEDEMUX, 'TaggedRecord.tagPysamRead')
+    sm = [c for c in walk_no_nested(f) if isinstance(c, ast.Call) and isinstance(c.func, ast.Attribute) and c.func.attr == 'addTagByTag' and c.args
+          and isinstance(c.args[0], ast.Constant) and c.args[0].value == 'SM' and len(c.args) > 1]
+    bi_calls = [c for c in sm if "self.tags['bi']" in src(c.args[1]).replace('"', "'")]
+    ok = len(bi_calls) == 1
+    detail = f'{len(bi_calls)} SM assignments from the bi tag'
+    if ok:
+        # among the statements that decide the sample name, the LY_bi assignment runs exactly when 'bi' is a tag: no further condition
+        top = [s_ for s_ in f.body if any(x is bi_calls[0] for x in ast.walk(s_))]
+        conds = reach_conds(top, bi_calls[0]) or []
+        extra = [src(t_) for t_, pol in conds if src(t_).replace('"', "'") != "'bi' in self.tags"]
+        has = [pol for t_, pol in conds if src(t_).replace('"', "'") == "'bi' in self.tags"]
+        ok = has == [True] and not extra
+        detail = "SM = LY_bi is assigned iff 'bi' in self.tags" if ok else f"SM = LY_bi additionally depends on {extra} (a read with a cell index can be named LY_BULK)"
+    ctx.emit('C04-R7', ok, BASEDEMUX, bi_calls[0] if bi_calls else f, 'tagPysamRead: ' + detail, key='sample-name-iff-cell-index',
+             what='tagPysamRead: the sample name ignores the cell index under an extra condition')
 
 
 META = {
